@@ -84,6 +84,7 @@ def e_exports(ops: List[Tuple[int, int, int]]) -> bool:
     submodule) / export(key=value) / pop (return from the submodule) over a stack of depth <= 3;
     a root-level export raises
     pre: len(ops) <= param('NO', 4) and all(0 <= o < 3 and 0 <= k < 2 and 0 <= v < 3 for o, k, v in ops)
+    pre: param('P0', -1) < 0 or (len(ops) == param('NO', 4) and ops[0][0] * 2 + ops[0][1] == param('P0', -1))
     post: _
     """
     ctx = _Ctx()
